@@ -15,6 +15,7 @@ CONSTANTS
   Weak_PendingSkipsExpiry = FALSE
   Weak_LateAddUnchecked = FALSE
   Weak_ExpiryUsesStartupParams = FALSE
+  Weak_UpdateAfterStateSave = FALSE
   Weak_CommittedMarkersDeferred = TRUE
   Weak_BufferDedupIgnoresVoteType = FALSE
   Weak_BufferUsesCurrentValSet = FALSE
